@@ -205,7 +205,22 @@ def check_expand(ctx, case):
     cands, plain = canon.plain(spec)
     prof = canon.build_profile(spec)
     before = [psn(prof)]
-    for b in prof.ballots[:3]:
+    from votekit import Ballot
+    todo = list(prof.ballots[:3])
+    # look-alike ballots expanded right afterwards in the same process: the half-resolved forms of a ballot with several tied
+    # positions (one tied group written out in each of its orders, the others still tied) and the same ranking with another
+    # weight - each has its own expansion, whatever was expanded before
+    for b in prof.ballots[:2]:
+        tied_pos = [i for i, g in enumerate(b.ranking) if len(g) > 1]
+        if len(tied_pos) >= 2:
+            i = tied_pos[0]
+            for perm in list(itertools.permutations(sorted(b.ranking[i])))[:3]:
+                r2 = b.ranking[:i] + tuple(frozenset([c]) for c in perm) + b.ranking[i + 1:]
+                todo.append(Ballot(ranking=r2, weight=b.weight + 1))
+                ctx.count("expand_half_resolved_siblings")
+        if tied_pos:
+            todo.append(Ballot(ranking=b.ranking, weight=b.weight * F(3, 7)))
+    for b in todo:
         o = observe(U.expand_tied_ballot, b)
         ctx.count("expand_calls")
         if not o.ok:
@@ -402,6 +417,10 @@ def run(ctx):
                 b["r"] = [g[:3] for g in b["r"]]
                 if rnd.random() < 0.3:  # weights whose equal shares need denominators far above 10^6
                     b["w"] = canon.fs(rnd.choice([F(1, 1000003), F(5, 7) ** 8, F(2, 3) ** 12, F(3, 99991), F(10 ** 9 + 7, 3)]))
+            if len(sp2["cands"]) >= 4 and rnd.random() < 0.4:
+                # a ballot with two tied positions goes first (its half-resolved forms are expanded right after it)
+                q = rnd.sample(sp2["cands"], 4)
+                sp2["ballots"].insert(0, canon.spec_ballot(r=[q[:2], q[2:]], w=gen.weight(rnd, "rat")))
             ctx.guard("expand", check_expand, ctx, {"kind": "expand", "profile": sp2})
         cs2 = gen.cands(rnd, rnd.randint(1, 5))
         bl = [([rnd.choice(cs2) for _ in range(rnd.randint(1, 5))], canon.fs(gen.weight(rnd, "mixed"))) for _ in range(rnd.randint(1, 6))]
